@@ -218,6 +218,11 @@ impl Property for C03 {
             }
             let _ = std::fs::remove_file(&exe);
             out.add("compiled_runs", 1);
+            // RealWorld has no event log: fold the observable result into the run's hash
+            for b in r.stdout.iter().chain(r.stderr.iter()) {
+                out.log_hash = (out.log_hash ^ *b as u64).wrapping_mul(0x0000_0100_0000_01B3);
+            }
+            out.log_hash = (out.log_hash ^ r.status.unwrap_or(-1) as u64).wrapping_mul(0x0000_0100_0000_01B3);
             let v = match &pf.halt {
                 Halt::Ended(End::End) | Halt::Ended(End::Exit(_)) => {
                     let want = if let Halt::Ended(End::Exit(c)) = &pf.halt { *c } else { 0 };
